@@ -51,3 +51,11 @@ SPEC = dict(
     ],
     search_seeds=2,
 )
+
+SPEC.setdefault("level_text", "Partial proof-level claim: Lean theorems (21) over the executable model of ~70 dense_matrix.cpp routines prove in-bounds indexing, that "
+    "add/mul/transpose/submatrix/row operations equal their Mathlib Matrix counterparts, the 1-3 dimensional Bareiss determinants, and L*U = A for the "
+    "Doolittle LU under its own non-zero-pivot precondition; the remaining algorithms (eliminations, inverses, Berkowitz, char poly, LDL, QR, Cholesky, solvers) "
+    "are tied by exact correspondence every run and judged by an independent GMP oracle (multiply-back, A*x=b, A*inv=I, cofactor determinant).")
+SPEC.setdefault("level_note", "Trusted: Lean kernel + Mathlib Matrix; harness and its GMP oracle. Eleven full statements are kept as defs (not proved) and decided per sample by the oracle. "
+    "Entries restricted to Integer/Rational; sizes <= 6.")
+SPEC.setdefault("technique", "Lean 4 proofs over an executable model + differential correspondence + independent oracle")
